@@ -45,7 +45,11 @@ HdrMT == {"absent", "right", "wrong"}
 \* new: manifest.New; reg / ocidir: RegClient.ManifestGet; regplat: ManifestGet of a tag that is an index with
 \* WithManifestPlatform (the child is fetched for the digest of the index entry, logged as `desc`); regdata:
 \* ManifestGet with a descriptor that carries the body as inline data
-Via == {"new", "reg", "ocidir", "regplat", "regdata"}
+\* orig: manifest.New(WithOrig(struct)) together with the expected digest sources (the bytes are the struct's
+\* serialisation); regputget: a client with the response cache on pushes the manifest to the reference (a registry
+\* need not validate a push by digest) and then pulls that very reference - what the pull returns is held to the
+\* same rule as any other fetch
+Via == {"new", "reg", "ocidir", "regplat", "regdata", "orig", "regputget"}
 \* how the caller of manifest.New spells the request (the order of the options and the shape of the
 \* descriptor are the caller's business and must not matter): std = raw, descriptor (digest only, when
 \* there is one), ref, header; ref_first = the ref before the descriptor; mt_desc = the descriptor also
@@ -54,7 +58,7 @@ Via == {"new", "reg", "ocidir", "regplat", "regdata"}
 \* size_desc = a descriptor (with the digest, if one is expected from it) that states a wrong size;
 \* size_entry (layout) = the entry of index.json states a wrong size
 Forms == {"std", "ref_first", "mt_desc", "mt_desc_first", "size_desc", "size_entry"}
-FormsOf(via) == IF via = "new" THEN Forms \ {"size_entry"} ELSE IF via = "ocidir" THEN {"std", "size_entry"} ELSE {"std"}
+FormsOf(via) == IF via \in {"new", "orig"} THEN Forms \ {"size_entry"} ELSE IF via = "ocidir" THEN {"std", "size_entry"} ELSE {"std"}
 FetchScenarios ==
   {x \in {[kind |-> k, variant |-> v, desc |-> d, ref |-> r, hdr |-> h, hdrmt |-> m, via |-> via, form |-> f] :
             k \in Kinds, v \in Variants, d \in DescSrc, r \in Src, h \in Src, m \in HdrMT, via \in Via, f \in Forms}
